@@ -41,7 +41,7 @@ CHECKS.update({
     "C02": ("fault_enumeration", "deviation-bounded exhaustive enumeration of environment faults (explorer with environment choice points) on the real SDK",
             "One encrypt from each prepared start state (cold, warm, rotating, revoked IK/SK, SK-only) with every placement of up to 2 (thorough: 3) faults over the metastore (error, false duplicate, error-after-write) and KMS calls it makes; a returned record must name rows present in the store snapshot taken at that instant and be decryptable by the independent reference from snapshot + KMS alone (= crash after return); after the faults stop the next encrypt must succeed. Region-suffixed key ids and a cancelled caller context (during any call) are part of the space. Plus schedules: two sessions of one factory encrypt at the same time over one real metastore object (DynamoDB plugins, memory): durable chain at return, fresh-process decrypt.", "6/C02"),
     "C10": ("fault_enumeration", "deviation-bounded exhaustive enumeration of faults with retained-buffer inspection",
-            "The fault space extended with AEAD and secret-allocation failures: the spies retain every plaintext slice they handed out (KMS unwrap, AEAD key unwraps, the buffer given to SecretFactory.New) and all must be zero when the operation returns; plus the AWS KMS plugin product checking GenerateDataKey / Decrypt plaintext. The caller may cancel its context during any metastore / KMS call (which then answers normally).", "6/C10"),
+            "The fault space extended with AEAD and secret-allocation failures: the spies retain every plaintext slice they handed out (KMS unwrap, AEAD key unwraps, the buffer given to SecretFactory.New) and all must be zero when the operation returns; plus the AWS KMS plugin product checking GenerateDataKey / Decrypt plaintext. The caller may cancel its context during any metastore / KMS call (which then answers normally). Both real secret factories (shadow page table) wipe the buffer handed to New; encrypt + cold decrypt through the SDK with them leave no unwrapped key readable.", "6/C10"),
     "C11": ("model_checking", "stateless schedule exploration (preemption-bounded DFS) over a shadow page table + exhaustive operation sequences on real pages observed through /proc/self/smaps",
             "(b) every interleaving up to the bound of readers (one nested; callbacks that panic or return an error), closers and an IsClosed poller on one secret of each implementation with a scheduling point inside every callback: callbacks only run on read-only pages with the original bytes, Close returns only after the last reader, later accesses fail, wipe precedes unlock; (a) every operation sequence (incl. callbacks that panic or fail) up to depth 4/5 on real mmap/mlock/mprotect memory for sizes 1 B..3 pages with smaps permissions and VmFlags (lo, dd) checked inside callbacks and after each step, in child processes so that a SIGSEGV is an observation.", "6/C11"),
     "C12": ("fault_enumeration", "deviation-bounded exhaustive enumeration of failing memory primitives over a shadow page table",
